@@ -566,6 +566,8 @@ class FastEtherCat(SimpleEtherCat):
 
             try:
                 ret = lookup_elem(self.programs, key, '<I')
+            except KeyError:  # lookup_elem turns ENOENT into KeyError
+                break
             except OSError as e:
                 if e.errno == 2:  # not found
                     break
